@@ -153,25 +153,37 @@ def classify(pspec, backend: str, detail: str, data=None) -> str:
     """Narrow classifiers for the column defects known on the pinned tree; anything else is unclassified."""
     steps = pspec["steps"]
     got, declared = _parse_cols(detail)
-    if backend == "sqlite" and len(steps) >= 2 and steps[-1][0] == "select_columns" and steps[-2][0] == "convert_records":
-        # the SQL returned exactly the record-map output columns (in their order), ignoring the selection
-        prev = C.build(C.prefix_spec(pspec, len(steps) - 1))
-        if got and got == list(prev.column_names):
-            return "%s:sql_model.SQLModel.select_columns_to_near_sql:select_columns-after-convert_records" % PID
+    if backend == "sqlite" and got:
+        # SQL generation ignores a select_columns whose (effective) source is a convert_records step when
+        # the selection only reaches the result through SELECT *: the result has the record-map columns
+        from cbc import sem
+
+        trace: List[Any] = []
+        ops = C.build(pspec, trace=trace)
+        st = sem.analyse_sql_structure(ops)
+        if st.select_ignored and st.raise_kind is None:
+            conv = [n for n in trace if n.node_name == "ConvertRecordsNode"]
+            if conv and got == list(conv[-1].column_names):
+                return "%s:sql_model.SQLModel.select_columns_to_near_sql:select_columns-after-convert_records" % PID
     if backend in ("pandas", "polars", "polars-lazy") and data is not None and got:
-        # blocks_to_rowrecs builds its result columns from the key values present in the data
+        # blocks_to_rowrecs builds its result columns from the key values present in the data: the defect
+        # is already visible in what this back end returns right after the convert_records step
+        be = "pandas" if backend == "pandas" else "polars"
         for j, (op, p) in enumerate(steps):
             if op == "convert_records" and p["kind"] == "blocks_to_rowrecs":
                 pc = C.PrefixCache(pspec, data)
-                pr = pc.rows(j, backend=("pandas" if backend == "pandas" else "polars"))
-                if pr[0] != "ok":
+                pr = pc.rows(j, backend=be)
+                after = pc.rows(j + 1, backend=be)
+                if pr[0] != "ok" or after[0] != "ok":
                     continue
                 ok, why = C.records_precondition(pr[1], pr[2], p)
-                missing = set(declared) - set(got)
-                extra = set(got) - set(declared)
-                if (not ok) and missing <= set(p["value_cols"]) and all(e not in C.SCHEMAS["d"] for e in extra) and j >= len(steps) - 2:
-                    site = "pandas_base.PandasModelBase.blocks_to_rowrecs" if backend == "pandas" else "polars_model.PolarsModel.blocks_to_rowrecs"
-                    return "%s:%s:block-key-values-missing-or-unknown-in-data" % (PID, site)
+                declared_j = list(p["record_keys"]) + list(p["value_cols"])
+                missing_j = set(declared_j) - set(map(str, after[1]))
+                extra_j = set(map(str, after[1])) - set(declared_j)
+                if (not ok) and (missing_j or extra_j) and missing_j <= set(p["value_cols"]) and all(e not in C.SCHEMAS["d"] for e in extra_j):
+                    if len(set(declared) - set(got)) <= len(missing_j) + len(extra_j) and len(set(got) - set(declared)) <= len(extra_j):
+                        site = "pandas_base.PandasModelBase.blocks_to_rowrecs" if backend == "pandas" else "polars_model.PolarsModel.blocks_to_rowrecs"
+                        return "%s:%s:block-key-values-missing-or-unknown-in-data" % (PID, site)
     return "%s:unclassified:%s" % (PID, C.case_hash({"spec": pspec, "backend": backend, "detail": detail.split(" (missing")[0]}))
 
 
